@@ -371,6 +371,14 @@ func runSearch[C any](t *testing.T, p Prop[C], env *Env) {
 						st.ExcludedKnown[v.Sig]++
 						if _, ok := st.KnownExamples[v.Sig]; !ok {
 							st.KnownExamples[v.Sig] = v.Msg
+							if collect {
+								// triage: keep one example case per signature
+								cb, _ := json.Marshal(c)
+								rf := ReplayFile{Property: p.ID, Case: cb, Violations: []Violation{v}}
+								b, _ := json.MarshalIndent(rf, "", " ")
+								_ = os.MkdirAll(env.ReplayDir, 0o755)
+								_ = os.WriteFile(filepath.Join(env.ReplayDir, "collect-"+hashKey(v.Sig)+".json"), b, 0o644)
+							}
 						}
 					}
 					continue
